@@ -74,6 +74,12 @@ fn strip_html(html: &str) -> String {
     out
 }
 
+const INJ_VARIANTS: [&str; 3] = [
+    "((code) @injection.content (#set! injection.language \"arith\"))",
+    "((code) @injection.content (#set! injection.language \"arith\") (#set! injection.include-children))",
+    "((code) @injection.content (#set! injection.language \"arith\") (#set! injection.combined))",
+];
+
 struct Cfg { name: &'static str, main: HighlightConfiguration, injected: Option<HighlightConfiguration>, names: Vec<&'static str> }
 
 fn check_source(cfg: &Cfg, hl: &mut Highlighter, parent_lang: &tree_sitter::Language, variant: usize, src: &[u8], res: &mut ShardResult) {
@@ -275,11 +281,7 @@ pub fn worker(ctx: &Ctx, res: &mut ShardResult) {
     let k = if ctx.mini() { 1 } else if ctx.quick() { 2 } else { 3 };
     let mut idx = 0usize;
     let mut hl = Highlighter::new();
-    let inj_variants = [
-        "((code) @injection.content (#set! injection.language \"arith\"))",
-        "((code) @injection.content (#set! injection.language \"arith\") (#set! injection.include-children))",
-        "((code) @injection.content (#set! injection.language \"arith\") (#set! injection.combined))",
-    ];
+    let inj_variants = INJ_VARIANTS;
     for variant in 0..3usize {
         let nm = names(variant);
         let mut cfgs: Vec<(Cfg, tree_sitter::Language, Vec<Vec<u8>>)> = vec![];
@@ -326,4 +328,44 @@ fn byte_atom_strings(n: usize) -> Vec<Vec<u8>> {
     out
 }
 
-pub fn replay(case: &Value) -> Vec<String> { vec![format!("rerun ./vf check C17 quick (case {})", case)] }
+/// Re-run one recorded (configuration, name list, source) outside the explorer and print the event stream.
+pub fn replay(case: &Value) -> Vec<String> {
+    let case = if case.get("kind").and_then(|k| k.as_str()) == Some("crash") { &case["case"] } else { case };
+    let (Some(cfg_name), Some(variant)) = (case["config"].as_str(), case["names_variant"].as_u64()) else { return vec![format!("not a C17 case: {}", case)] };
+    let variant = variant as usize;
+    let src = crate::util::bytes_from_json(&case["source"]);
+    let stmts = build_info(&crate::zoo::stmts());
+    let arith = build_info(&crate::zoo::arith());
+    let tmpl_lang = crate::lang::build(&crate::zoo::tmpl().spec, tree_sitter_generate::OptLevel::default()).unwrap().language;
+    let nm = names(variant);
+    let mut hl = Highlighter::new();
+    let mut res = ShardResult::new();
+    let print_events = |main: &HighlightConfiguration, a: Option<&HighlightConfiguration>, st: Option<&HighlightConfiguration>| {
+        let mut h2 = Highlighter::new();
+        let evs: Vec<HighlightEvent> = match h2.highlight(main, &src, None, None, move |name| match name { "arith" => a, "stmts" => st, _ => None }) { Ok(it) => it.flatten().collect(), Err(_) => vec![] };
+        {
+            let mut line = String::new();
+            for e in evs { match e { HighlightEvent::HighlightStart(h) => line.push_str(&format!("<{}>", nm.get(h.0).copied().unwrap_or("?"))), HighlightEvent::HighlightEnd => line.push_str("</>"), HighlightEvent::Source { start, end } => line.push_str(&format!("[{}..{} {:?}]", start, end, String::from_utf8_lossy(&src[start..end.min(src.len())]))) } }
+            println!("events: {}", line);
+        }
+    };
+    if cfg_name == "tmpl-nested" {
+        let n = make_nested(variant, &stmts.language, &arith.language, &tmpl_lang);
+        print_events(&n.main, Some(&n.arith), Some(&n.stmts));
+        check_nested(&n, &mut hl, &tmpl_lang, variant, &src, &mut res);
+    } else if cfg_name == "stmts" {
+        let mut main = HighlightConfiguration::new(stmts.language.clone(), "stmts", STMTS_HL, "", STMTS_LOCALS).expect("stmts highlight config");
+        main.configure(&nm);
+        print_events(&main, None, None);
+        check_source(&Cfg { name: "stmts", main, injected: None, names: nm.clone() }, &mut hl, &stmts.language, variant, &src, &mut res);
+    } else {
+        let Some(vi) = ["tmpl-plain", "tmpl-include-children", "tmpl-combined"].iter().position(|n| *n == cfg_name) else { return vec![format!("unknown configuration {}", cfg_name)] };
+        let mut main = HighlightConfiguration::new(tmpl_lang.clone(), "tmpl", TMPL_HL, INJ_VARIANTS[vi], "").expect("tmpl highlight config");
+        main.configure(&nm);
+        let mut a = HighlightConfiguration::new(arith.language.clone(), "arith", ARITH_HL, "", "").expect("arith highlight config");
+        a.configure(&nm);
+        print_events(&main, Some(&a), None);
+        check_source(&Cfg { name: ["tmpl-plain", "tmpl-include-children", "tmpl-combined"][vi], main, injected: Some(a), names: nm.clone() }, &mut hl, &tmpl_lang, variant, &src, &mut res);
+    }
+    res.violations.iter().map(|v| format!("{}: {}", v.fingerprint, v.what)).collect()
+}
